@@ -662,7 +662,17 @@ def c015(ctx):
         names = K.src_names(f, {"k": "copy", "pl": {"l": 0, "p": []}})
         srcs, _ = P.value_slice(f, {"k": "copy", "pl": {"l": 0, "p": []}})
         ok = any(s["k"] == "field" and s["f"] == "biggest_timestamp" for s in srcs) and any(s["k"] == "call" and s["callee"].endswith("cmp::max") for s in srcs)
-        ctx.check(R, f, "tree-max", ok, "Version::max_timestamp is the max of biggest_timestamp over all files", "Version::max_timestamp no longer covers biggest_timestamp of the files")
-        # over all levels: two nested loops
-        loops = [p for p in P.call_points(f, r"Iterator>::next$") if P.reach(f, P.after(f, p), [p])]
-        ctx.check(R, f, "all-levels", len(loops) >= 2, "iterating levels and files", "max_timestamp no longer iterates levels x files")
+        # the same maximum as an iterator chain: `levels.iter().flat_map(|l| l.ssts.iter()).map(|f| f.biggest_timestamp).max()`
+        mx = P.call_points(f, r"Iterator>?::(max|max_by_key|max_by)$")
+        cls = ctx.prog.closures_of(f)
+        reads = lambda fld: any(any(isinstance(e, dict) and e.get("f") == fld for st_ in b_.st if st_["s"] == "=" for pl_ in ((st_["rv"].get("pl") or {}), ((st_["rv"].get("a") or {}).get("pl") or {})) for e in pl_.get("p", []))
+                                for g_ in [f] + cls for b_ in g_.blocks)
+        chain_ok = bool(P.call_points(f, r"Iterator>?::(flat_map|flatten)$")) and \
+            not P.call_points(f, r"Iterator>?::(filter|filter_map|take|take_while|skip|skip_while|step_by|nth|last|map_while)$")
+        if not ok and mx and chain_ok and reads("biggest_timestamp") and reads("levels") and reads("ssts"):
+            ctx.ok(R, f, "Version::max_timestamp is max() over levels.flat_map(ssts) of biggest_timestamp, with no adaptor that leaves files out")
+        else:
+            ctx.check(R, f, "tree-max", ok, "Version::max_timestamp is the max of biggest_timestamp over all files", "Version::max_timestamp no longer covers biggest_timestamp of the files")
+            # over all levels: two nested loops
+            loops = [p for p in P.call_points(f, r"Iterator>::next$") if P.reach(f, P.after(f, p), [p])]
+            ctx.check(R, f, "all-levels", len(loops) >= 2, "iterating levels and files", "max_timestamp no longer iterates levels x files")
